@@ -257,19 +257,21 @@ class ANMLWriter:
         names_mapping[env.type_manager.BoolType()] = "boolean"
         names_mapping[env.type_manager.IntType()] = "integer"
         names_mapping[env.type_manager.RealType()] = "float"
+
+        def keep_name(item, name: str):
+            # No renaming needed for a valid name, unless another element already took it
+            # (elements can share a name when the environment flag error_used_name is disabled).
+            if _is_valid_anml_name(name) and name not in names_mapping.values():
+                names_mapping[item] = name
+
         for t in self.problem.user_types:
-            ut = cast(_UserType, t)
-            if _is_valid_anml_name(ut.name):  # No renaming needed
-                names_mapping[t] = ut.name
+            keep_name(t, cast(_UserType, t).name)
         for a in self.problem.actions:
-            if _is_valid_anml_name(a.name):  # No renaming needed
-                names_mapping[a] = a.name
+            keep_name(a, a.name)
         for f in self.problem.fluents:
-            if _is_valid_anml_name(f.name):  # No renaming needed
-                names_mapping[f] = f.name
+            keep_name(f, f.name)
         for o in self.problem.all_objects:
-            if _is_valid_anml_name(o.name):  # No renaming needed
-                names_mapping[o] = o.name
+            keep_name(o, o.name)
 
         for t in self.problem.user_types:
             anml_type_name = _get_anml_name(t, names_mapping)
